@@ -66,6 +66,8 @@ int sbdf_va_create_plain(sbdf_object const* array, sbdf_valuearray** handle)
 	err = sbdf_obj_copy(array, &(*handle)->object1);
 	if (err)
 	{
+		free(*handle);
+		*handle = 0;
 		return err;
 	}
 
@@ -131,11 +133,13 @@ int sbdf_va_create_rle(sbdf_object const* array, sbdf_valuearray** handle)
 			if (elem_size < 0)
 			{
 				free(*handle);
+				*handle = 0;
 				return elem_size;
 			}
 			else if (elem_size == 0)
 			{
 				free(*handle);
+				*handle = 0;
 				return SBDF_ERROR_UNKNOWN_TYPEID;
 			}
 			is_string = 0;
@@ -170,21 +174,23 @@ int sbdf_va_create_rle(sbdf_object const* array, sbdf_valuearray** handle)
 				{
 					out_capacity = 1 + out_capacity * 3 / 2;
 
-					if (out_base)
 					{
-						out_base = realloc(out_base, elem_size * out_capacity);
-						run_out_base = realloc(run_out_base, out_capacity);
-					}
-					else
-					{
-						out_base = malloc(elem_size * out_capacity);
-						run_out_base = malloc(out_capacity);
-					}
-
-					if (!out_base || !run_out_base)
-					{
-						free(*handle);
-						return SBDF_ERROR_OUT_OF_MEMORY;
+						/* realloc(0, n) allocates; a failed realloc leaves the old block in place */
+						char* new_out = realloc(out_base, elem_size * out_capacity);
+						unsigned char* new_run = new_out ? realloc(run_out_base, out_capacity) : 0;
+						if (new_out)
+						{
+							out_base = new_out;
+						}
+						if (new_run)
+						{
+							run_out_base = new_run;
+						}
+						if (!new_out || !new_run)
+						{
+							err = SBDF_ERROR_OUT_OF_MEMORY;
+							goto fail;
+						}
 					}
 
 					out = out_base + elem_size * out_size;
@@ -197,10 +203,8 @@ int sbdf_va_create_rle(sbdf_object const* array, sbdf_valuearray** handle)
 					void* copy = sbdf_copy_array(prev_data);
 					if (!copy)
 					{
-						free(run_out_base);
-						free(out_base);
-						free(*handle);
-						return SBDF_ERROR_OUT_OF_MEMORY;
+						err = SBDF_ERROR_OUT_OF_MEMORY;
+						goto fail;
 					}
 					*(void**)out = copy;
 				}
@@ -234,10 +238,8 @@ int sbdf_va_create_rle(sbdf_object const* array, sbdf_valuearray** handle)
 			run_out_base = malloc(1);
 			if (!out_base || !run_out_base)
 			{
-				free(run_out_base);
-				free(out_base);
-				free(*handle);
-				return SBDF_ERROR_OUT_OF_MEMORY;
+				err = SBDF_ERROR_OUT_OF_MEMORY;
+				goto fail;
 			}
 		}
 
@@ -251,7 +253,17 @@ int sbdf_va_create_rle(sbdf_object const* array, sbdf_valuearray** handle)
 
 		if (err)
 		{
+fail:
+			/* the copies collected so far belong to nobody yet */
+			if (is_array && out_base)
+			{
+				for (i = 0; i < out_size; ++i)
+				{
+					sbdf_dispose_array(((void**)out_base)[i]);
+				}
+			}
 			sbdf_va_destroy(*handle);
+			*handle = 0;
 		}
 
 		free(run_out_base);
@@ -302,10 +314,14 @@ int sbdf_va_create_bit(sbdf_object const* array, sbdf_valuearray** handle)
 		elem_size = sbdf_get_unpacked_size(vt);
 		if (elem_size < 0)
 		{
+			free(*handle);
+			*handle = 0;
 			return elem_size;
 		}
 		else if (elem_size == 0)
 		{
+			free(*handle);
+			*handle = 0;
 			return SBDF_ERROR_UNKNOWN_TYPEID;
 		}
 	}
@@ -317,6 +333,7 @@ int sbdf_va_create_bit(sbdf_object const* array, sbdf_valuearray** handle)
 	if (!out)
 	{
 		free(*handle);
+		*handle = 0;
 		return SBDF_ERROR_OUT_OF_MEMORY;
 	}
 
@@ -365,7 +382,9 @@ int sbdf_va_create_bit(sbdf_object const* array, sbdf_valuearray** handle)
 	t = calloc(1, sizeof(sbdf_object));
 	if (!t)
 	{
+		free(out - packed_len);
 		free(*handle);
+		*handle = 0;
 		return SBDF_ERROR_OUT_OF_MEMORY;
 	}
 	t->type = bytearray_vt;
@@ -373,17 +392,21 @@ int sbdf_va_create_bit(sbdf_object const* array, sbdf_valuearray** handle)
 	t->data = malloc(sizeof(void*));
 	if (!t->data)
 	{
+		free(out - packed_len);
 		free(*handle);
+		*handle = 0;
 		free(t);
 		return SBDF_ERROR_OUT_OF_MEMORY;
 	}
 
 	*(void**)t->data = sbdf_ba_create(out - packed_len, packed_len);
-	if (!t->data)
+	if (!*(void**)t->data)
 	{
+		free(out - packed_len);
 		free(*handle);
-		free(t);
+		*handle = 0;
 		free(t->data);
+		free(t);
 		return SBDF_ERROR_OUT_OF_MEMORY;
 	}
 
@@ -476,7 +499,7 @@ static int sbdf_get_rle_values(sbdf_valuearray* handle, sbdf_object** result)
 	t->type = handle->object2->type;
 	t->count = elem_cnt = handle->value1;
 
-	if (!(t->data = malloc((size_t)elem_size * elem_cnt)))
+	if (!(t->data = calloc(elem_cnt, elem_size)))
 	{
 		sbdf_obj_destroy(t);
 		return SBDF_ERROR_OUT_OF_MEMORY;
